@@ -263,6 +263,10 @@ pub struct Knobs {
     /// Treat an infinite wait with nothing to deliver as an event instead of
     /// blocking.
     pub inject_cq_garbage: bool,
+    /// SQPOLL rings: io_uring_enter itself submits nothing (like the real kernel),
+    /// only the simulated kernel thread does. Off by default so that
+    /// single-threaded scenarios do not need a kernel thread.
+    pub sqpoll_strict: bool,
 }
 
 impl Default for Knobs {
@@ -283,6 +287,7 @@ impl Default for Knobs {
             ncpus: 16,
             sync_cancel_normal: 0,
             inject_cq_garbage: false,
+            sqpoll_strict: false,
         }
     }
 }
@@ -377,6 +382,20 @@ pub fn k() -> SimkGuard {
         *guard = Some(Simk::new(1));
     }
     SimkGuard { guard, _mon: mon }
+}
+
+/// Like `k()` but fails if the calling thread (or another one) holds the lock.
+pub fn try_k() -> Result<SimkGuard, ()> {
+    let mon = MonGuard::new();
+    match SIMK.try_lock() {
+        Ok(mut guard) => {
+            if guard.is_none() {
+                *guard = Some(Simk::new(1));
+            }
+            Ok(SimkGuard { guard, _mon: mon })
+        }
+        Err(_) => Err(()),
+    }
 }
 
 pub fn thread_id() -> u64 {
